@@ -224,7 +224,7 @@ def run(ctx, build):
     R = ctx.runner('Fat')
     RB = ctx.try_runner('Boot')
     rng = ctx.rng
-    tables = 24 if ctx.thorough else 3
+    tables = 60 if ctx.thorough else 3
     if ctx.widen:
         tables += 1
     for tb in range(tables):
